@@ -617,7 +617,7 @@ fn replay_gen_range(words: &[u64], n: usize) -> Option<(usize, usize)> {
 
 /// does the region contain the starting cell selected by the first draw(s), and is its number of
 /// cells at most the size drawn next (`contiguous_bits + 1`)?
-fn growth_plausible(before: &Snap, reg: &Reg, nvars: usize, log: &[u64]) -> Result<(), String> {
+fn growth_plausible(before: &Snap, reg: &Reg, nvars: usize, log: &[u64], tail_draws: usize) -> Result<(), String> {
     let cps = const_ps(before, nvars);
     let flat: Vec<(usize, usize)> = (0..nvars).flat_map(|v| cps[v].iter().map(move |p| (v, *p))).collect();
     let idle: Vec<usize> = (0..nvars).filter(|v| cps[*v].is_empty()).collect();
@@ -635,6 +635,11 @@ fn growth_plausible(before: &Snap, reg: &Reg, nvars: usize, log: &[u64]) -> Resu
     let cells = cell_count(before, reg, nvars);
     if cells == 0 || cells > size {
         return Err(format!("region has {} cells but the drawn cluster size is {}", cells, size));
+    }
+    // every popped cell costs one or two draws (gen_bool unless the ratio is exactly 1, then gen_range)
+    let growth = log.len() as i64 - used as i64 - 1 - tail_draws as i64;
+    if growth < cells as i64 || growth > 2 * cells as i64 {
+        return Err(format!("{} draws spent on growing a region of {} cells", growth, cells));
     }
     Ok(())
 }
@@ -685,7 +690,7 @@ fn observe(g: &mut G, rng: &Shared, m: &Model, stats: &mut std::collections::BTr
                 }
             }
             let d = dense(g, m, &before, &before, &cand);
-            if d.bad.is_none() && d.break_after_toggles == Some(i) && growth_plausible(&before, &cand, m.nvars, &log).is_ok() {
+            if d.bad.is_none() && d.break_after_toggles == Some(i) && growth_plausible(&before, &cand, m.nvars, &log, 1).is_ok() {
                 found = Some((i, cand));
                 break;
             }
@@ -729,7 +734,8 @@ fn observe(g: &mut G, rng: &Shared, m: &Model, stats: &mut std::collections::BTr
     if let Some(b) = &d.bad {
         fails.push(b.clone());
     }
-    if let Err(e) = growth_plausible(&before, &reg, m.nvars, &log) {
+    let tail = (t.p_to_flip < 1.0) as usize + if t.accepted { d.k } else { 0 };
+    if let Err(e) = growth_plausible(&before, &reg, m.nvars, &log, tail) {
         fails.push(e);
     }
     if !d.outside_same {
